@@ -100,6 +100,11 @@ func (snt *ScrapligoNetconfTarget) EditConfig(target string, config string) (*ty
 	if len(resp.ErrorMessages) > 0 {
 		return nil, resp.Failed
 	}
+	// only rpc-errors that were recognised as warnings are tolerated: a reply that failed and whose
+	// rpc-error could not be classified (e.g. <nc:rpc-error> with prefixed elements) is an error
+	if resp.Failed != nil && len(resp.WarningErrorMessages) == 0 {
+		return nil, resp.Failed
+	}
 
 	// creating a new etree Document and parsing the netconf rpc result
 	x := etree.NewDocument()
